@@ -204,3 +204,8 @@ def reformat_parsed_text(PL):
             return True
         return pat.format(r.value) == s
     return h
+
+
+from props import fpk  # noqa: E402
+
+fpk.declare()
